@@ -311,7 +311,7 @@ func main() {
 			}
 		}
 		w.Extra["exhaustive_scope"] = fmt.Sprintf("inject: all %d sequences of %d steps over a %d-step alphabet (frames of every kind for established/backlogged/unknown/zero identifiers, local open/accept/read/close) after a 5-step prefix", count, depth, len(alphabet))
-		nInject := 700
+		nInject := 500
 		if cfg.Thorough() {
 			nInject = 20000
 		}
@@ -322,12 +322,12 @@ func main() {
 
 	flush(8)
 
-	nTrace := 300
+	nTrace := 200
 	if cfg.Thorough() {
 		nTrace = 5000
 	}
 	if *prop == "C24" && !cfg.Thorough() {
-		nTrace = 220
+		nTrace = 150
 	}
 	stress := *fixed || *prop == "C24"
 	// head-of-line workloads (slow): a few, run in the background
